@@ -276,6 +276,15 @@ func batchModels(all bool) []*batchModel {
 		mkModel("GRU-linear_before_reset", "x", []hx.DimSpec{fx(3), N, fx(3)}, batchIO{[]int{3, 1, 3}, 1}, nil, []*onnx.NodeProto{hx.Node("GRU", []string{"x", "W6", "R6", "B12"}, []string{"Y", "Yh"}, []hx.Attr{hx.AInt("hidden_size", 2), hx.AInt("linear_before_reset", 1)})},
 			[]*onnx.TensorProto{init("W6", 1, 6, 3), init("R6", 1, 6, 2), init("B12", 1, 12)}, map[string]int{"Y": 2, "Yh": 1}, nil, nil)
 	}
+	// per-head weights, kernels as large as the (padded) image, strides as large as the image
+	mkModel("MatMul-per-head-weights(N,2,2,3)x(2,3,2)", "x", []hx.DimSpec{N, fx(2), fx(2), fx(3)}, batchIO{[]int{1, 2, 2, 3}, 0}, nil, []*onnx.NodeProto{hx.Node("MatMul", []string{"x", "Wh"}, []string{"y"}, nil)}, []*onnx.TensorProto{init("Wh", 2, 3, 2)}, map[string]int{"y": 0}, nil, nil)
+	mkModel("MatMul-shared-weights(N,2,2,3)x(3,2)", "x", []hx.DimSpec{N, fx(2), fx(2), fx(3)}, batchIO{[]int{1, 2, 2, 3}, 0}, nil, []*onnx.NodeProto{hx.Node("MatMul", []string{"x", "W"}, []string{"y"}, nil)}, []*onnx.TensorProto{init("W", 3, 2)}, map[string]int{"y": 0}, nil, nil)
+	mkModel("MatMul-per-head-weights(N,3,1,2)x(3,2,2)", "x", []hx.DimSpec{N, fx(3), fx(1), fx(2)}, batchIO{[]int{1, 3, 1, 2}, 0}, nil, []*onnx.NodeProto{hx.Node("MatMul", []string{"x", "Wh3"}, []string{"y"}, nil)}, []*onnx.TensorProto{init("Wh3", 3, 2, 2)}, map[string]int{"y": 0}, nil, nil)
+	mkModel("Conv2D-kernel=image", "x", []hx.DimSpec{N, fx(2), fx(3), fx(4)}, batchIO{[]int{1, 2, 3, 4}, 0}, nil, []*onnx.NodeProto{hx.Node("Conv", []string{"x", "Kfull", "kb3"}, []string{"y"}, nil)}, []*onnx.TensorProto{init("Kfull", 3, 2, 3, 4), init("kb3", 3)}, map[string]int{"y": 0}, nil, nil)
+	mkModel("Conv2D-kernel=padded-image", "x", []hx.DimSpec{N, fx(1), fx(2), fx(2)}, batchIO{[]int{1, 1, 2, 2}, 0}, nil, []*onnx.NodeProto{hx.Node("Conv", []string{"x", "Kpad"}, []string{"y"}, []hx.Attr{hx.AInts("pads", 1, 0, 0, 1)})}, []*onnx.TensorProto{init("Kpad", 2, 1, 3, 3)}, map[string]int{"y": 0}, nil, nil)
+	mkModel("Conv1D-kernel=image", "x", []hx.DimSpec{N, fx(2), fx(5)}, batchIO{[]int{1, 2, 5}, 0}, nil, []*onnx.NodeProto{hx.Node("Conv", []string{"x", "K5"}, []string{"y"}, nil)}, []*onnx.TensorProto{init("K5", 2, 2, 5)}, map[string]int{"y": 0}, nil, nil)
+	mkModel("Conv2D-stride=image", "x", []hx.DimSpec{N, fx(2), fx(3), fx(4)}, batchIO{[]int{1, 2, 3, 4}, 0}, nil, []*onnx.NodeProto{hx.Node("Conv", []string{"x", "K", "kb"}, []string{"y"}, []hx.Attr{hx.AInts("strides", 3, 4)})}, []*onnx.TensorProto{init("K", 2, 2, 2, 2), init("kb", 2)}, map[string]int{"y": 0}, nil, nil)
+	mkModel("Gemm-transA-free(N,3)xW+Softmax", "x", []hx.DimSpec{N, fx(3)}, batchIO{[]int{1, 3}, 0}, nil, []*onnx.NodeProto{hx.Node("Gemm", []string{"x", "W", "b"}, []string{"h"}, []hx.Attr{hx.AFloat("alpha", 0.5)}), hx.Node("Softmax", []string{"h"}, []string{"y"}, []hx.Attr{hx.AInt("axis", 1)})}, []*onnx.TensorProto{init("W", 3, 2), init("b", 2)}, map[string]int{"y": 0, "h": 0}, nil, nil)
 	// recurrent operators: batch axis 1
 	for _, op := range []string{"RNN", "GRU", "LSTM"} {
 		ng := map[string]int{"RNN": 1, "GRU": 3, "LSTM": 4}[op]
@@ -322,7 +331,7 @@ func checkC16(c *hx.Checker) {
 		pool, maxLen = 5, 5
 	}
 	models := batchModels(thorough)
-	c.Rule = fmt.Sprintf("%d models: sample models mlp, scaler, gru (thorough: + ndm); generated per-sample models (Gemm/MatMul against weights, mlp, elementwise + activations, PRelu, Softmax/LogSoftmax over a non-batch axis, Scaler, LinearRegressor, Gather/Slice/Concat/ArgMax/Reduce on a non-batch axis, Reshape(0,-1), Flatten, Unsqueeze/Squeeze, Expand, Cast), each also behind 4 batch-preserving first stages (Relu, Add-bias, Mul, Tanh) = all 1- and 2-stage combinations; Conv 1-D/2-D (batch axis 0); RNN/GRU/LSTM with and without initial states and with seq=1 (batch axis 1); the Transpose>GRU>Squeeze>Transpose wrapping; LSTM with peephole weights, GRU with linear_before_reset; Softmax/LogSoftmax (last and non-last axis) and Gemm+Tanh with one sample of the pool 150 times (Softmax/LogSoftmax also 1e7 times) larger than the others. "+
+	c.Rule = fmt.Sprintf("%d models: sample models mlp, scaler, gru (thorough: + ndm); generated per-sample models (Gemm/MatMul against weights, mlp, elementwise + activations, PRelu, Softmax/LogSoftmax over a non-batch axis, Scaler, LinearRegressor, Gather/Slice/Concat/ArgMax/Reduce on a non-batch axis, Reshape(0,-1), Flatten, Unsqueeze/Squeeze, Expand, Cast), each also behind 4 batch-preserving first stages (Relu, Add-bias, Mul, Tanh) = all 1- and 2-stage combinations; Conv 1-D/2-D (batch axis 0); RNN/GRU/LSTM with and without initial states and with seq=1 (batch axis 1); the Transpose>GRU>Squeeze>Transpose wrapping; LSTM with peephole weights, GRU with linear_before_reset; MatMul of a rank-4 input against per-head (rank-3) and shared weights, Conv with a kernel as large as the (padded) image and with a stride as large as the image; Softmax/LogSoftmax (last and non-last axis) and Gemm+Tanh with one sample of the pool 150 times (Softmax/LogSoftmax also 1e7 times) larger than the others. "+
 		"per model: sample pool of %d distinct samples; EVERY batch = every sequence over the pool of length 1..%d (all permutations, sub-selections, repetitions, batch sizes). Oracle: position i of every batched output equals the output of evaluating that sample alone (N=1), rel 1e-5; non-trivial = batches of size >= 2", len(models), pool, maxLen)
 	c.Assumptions = []string{"'up to floating-point rounding': rel 1e-5 + abs 1e-6 (float32; abs 2e-4 for the models with a sample of magnitude ~150, whose intermediates have an ulp of 3e-5); the number of bit-identical cases is reported as an outcome class", "models are restricted to operators acting per sample along the batch axis, as in the statement"}
 	type job struct {
